@@ -117,25 +117,108 @@ class M(Model):
         return bool(int(np.asarray(s2.vehicles.positions)[k]) != v)
 
     # ------------------------------------------------------------------ plan bias ('solve' mode)
-    def solve_action(self, s, r=0):
-        """Constructive joint move: every vehicle drives to a legal customer nobody else picked in this
-        step (r chooses which), or to the depot when none is left; with probability ~1/4 per vehicle it
-        idles/returns to the depot instead, so that completion happens at varied steps (also exactly at the
-        step limit) and 'everybody at the depot with demand left' states occur.  Uniform legal play mostly
-        keeps the vehicles at the depot for per-vehicle masks whose first entry is the depot."""
-        leg = self.legal(s)
-        r = int(r)
+    # Rule-level simulation of collision-free legal joint moves (used only to plan, never as an oracle).
+    def _raw(self, s):
+        return (np.asarray(s.nodes.demands).astype(np.int64).reshape(-1).copy(),
+                np.asarray(s.vehicles.capacities).astype(np.int64).reshape(-1).copy(),
+                np.asarray(s.vehicles.positions).astype(np.int64).reshape(-1).copy())
+
+    def _sim(self, d, cap, pos, a):
+        d, cap, pos = d.copy(), cap.copy(), pos.copy()
+        for v, c in enumerate(a):
+            c = int(c)
+            if c == DEPOT:
+                cap[v] = self.C
+            else:
+                cap[v] -= d[c]
+                d[c] = 0
+            pos[v] = c
+        return d, cap, pos
+
+    def _done(self, d, pos):
+        return d.sum() == 0 and not pos.any()
+
+    def _pick(self, d, cap, choose):
+        """joint move: vehicle v goes to a legal customer nobody picked yet (choose(v, candidates)), else depot"""
         taken, out = set(), []
         for v in range(self.V):
-            cust = [int(c) for c in np.flatnonzero(leg[v]) if c > 0 and int(c) not in taken]
-            idle = ((r >> (2 * v + 3)) & 3) == 0
-            if cust and not idle:
-                c = cust[(r // (5 ** v)) % len(cust)]
+            cust = [int(c) for c in np.flatnonzero((d > 0) & (d <= cap[v])) if c > 0 and int(c) not in taken]
+            c = choose(v, cust) if cust else DEPOT
+            if c != DEPOT:
                 taken.add(c)
-                out.append(c)
-            else:
-                out.append(DEPOT)
-        return np.asarray(out, np.int64)
+            out.append(c)
+        return out
+
+    def _finisher(self, d, cap, pos):
+        return self._pick(d, cap, lambda v, cust: cust[0])
+
+    def _need(self, d, cap, pos):
+        """steps the deterministic finisher takes from here to 'all served, all vehicles at the depot'"""
+        n = 0
+        while not self._done(d, pos):
+            if n > 4 * self.N + 4:
+                return 10**6
+            d, cap, pos = self._sim(d, cap, pos, self._finisher(d, cap, pos))
+            n += 1
+        return n
+
+    def _random_move(self, d, cap, r):
+        def choose(v, cust):
+            if ((r >> (2 * v + 3)) & 3) == 0:
+                return DEPOT
+            return cust[(r // (5 ** v)) % len(cust)]
+        return self._pick(d, cap, choose)
+
+    def _ok(self, d, cap, pos, T, target):
+        """from this state an episode finishing after exactly `target` steps can still be forced"""
+        slack = target - (T + self._need(d, cap, pos))
+        if slack == 0:
+            return True
+        if slack < 0 or d.sum() == 0:
+            return False
+        if not pos.any():
+            return True  # idling at the depot burns exactly one step of slack
+        d2, cap2, pos2 = self._sim(d, cap, pos, [DEPOT] * self.V)
+        return d2.sum() > 0 and T + 1 + self._need(d2, cap2, pos2) <= target
+
+    def solve_action(self, s, r=0):
+        """Constructive joint move: every vehicle drives to a legal customer nobody else picked in this step
+        (r chooses which; ~1/4 of the time a vehicle goes to the depot instead), or to the depot when no
+        customer is left for it.  Uniform legal play mostly keeps the vehicles at the depot (first mask entry).
+
+        Three per-episode variants, selected by r of the episode's first step (remembered per instance, r of
+        later steps is independent): r % 3 == 0 'finish as late as possible' - the vehicles idle at the depot
+        (always legal) as long as the remaining work still fits, so that the episode completes after exactly
+        2N-1 steps, i.e. with final step_count == 2N, the last count that is not "step_count > 2N";
+        r % 3 == 1 finishes one step earlier (2N-2 steps); r % 3 == 2 plays freely."""
+        r = int(r)
+        d, cap, pos = self._raw(s)
+        if d.shape != (self.N + 1,) or ((pos < 0) | (pos > self.N)).any() or (cap < 0).any():
+            return np.zeros(self.V, np.int64)  # odd state after out-of-mask play: everybody home
+        T = self._steps_done(s)
+        key = self._key(s)
+        if not hasattr(self, "_variant"):
+            self._variant = {}
+        if T == 0:
+            if len(self._variant) > 4096:
+                self._variant.clear()
+            self._variant[key] = r % 3
+        var = self._variant.get(key, sum(key[:64]) % 3)
+        rnd = self._random_move(d, cap, r)
+        if var == 2:
+            return np.asarray(rnd, np.int64)
+        target = self.limit - 1 - var
+        fin = self._finisher(d, cap, pos)
+        slack = target - (T + self._need(d, cap, pos))
+        if slack <= 0:
+            return np.asarray(fin, np.int64)
+        home = [DEPOT] * self.V  # idle when everybody is at the depot, otherwise recall everybody
+        cands = [rnd, home, fin] if (r >> 1) & 1 else [home, rnd, fin]
+        for a in cands:
+            d2, cap2, pos2 = self._sim(d, cap, pos, a)
+            if self._ok(d2, cap2, pos2, T + 1, target):
+                return np.asarray(a, np.int64)
+        return np.asarray(fin, np.int64)
 
     # ------------------------------------------------------------------ C06
     def constraints(self, s):
